@@ -1,6 +1,6 @@
 (** Property C17 — Whitespace hygiene of the output (output stage; chunk-text invariants are contracts). *)
 From Coq Require Import List ZArith Bool.
-From UV Require Import Model.Render Proofs.RenderProofs Proofs.RenderTabs.
+From UV Require Import Model.Render Proofs.RenderProofs Proofs.RenderBreaks Model.NlMax Proofs.RenderTabs.
 Import ListNotations.
 Local Open Scope Z_scope.
 
@@ -49,3 +49,12 @@ Theorem C17_tabs_then_spaces : forall o, 1 <= output_tab_size o -> forall prev c
     /\ (Z.of_nat k < output_tab_size o) /\ column s' = col c + Z.of_nat (length (text c)).
 Proof. exact first_chunk_on_line_tabs. Qed.
 Print Assumptions C17_tabs_then_spaces.
+
+(** the end of the file: when the chunk list ends in a NEWLINE chunk the written output ends in exactly its nl_count
+    line breaks behind whatever the other chunks contribute (events: true = line break, false = visible character);
+    nl_end_of_file / nl_end_of_file_min act by setting that count (newlines_eat_start_end(), contract) *)
+Theorem C17_file_ends_in_nl_count_breaks : forall o last sp l c,
+  last <> 13 -> Forall crfree (l ++ [c]) -> ck c = CKNewline ->
+  flat_map bv (render o last sp (l ++ [c])) = flat_map bcontrib l ++ repeat true (Z.to_nat (nl_count c)).
+Proof. exact file_end_breaks. Qed.
+Print Assumptions C17_file_ends_in_nl_count_breaks.
